@@ -521,9 +521,13 @@ def run(tier):
                 j = info["job"]
                 key = {"scenario": "data-history", "ver": FL.VNAME[j[1]], "role": j[3],
                        "opts": "cs=%s,ia=%s" % tuple(j[4]), "pre": j[5], "term": j[6]}
-            key["call"] = ("%s/%s" % (bad["api"], bad["env"])) if bad else "-"
-            key["observed"] = ("res=%s closed=%s sess=%s n=%s desc=%s/%s" % (
-                bad["res"], bad["closed"], bad["sess"], bad["n"], bad["desc"], bad["wantdesc"])) if bad else info.get("problem", "?")
+            if bad and bad.get("ev") == "SIB":
+                key["call"] = "sibling-fails"
+                key["observed"] = "sess=%s after the sibling connection failed" % bad.get("sess")
+            else:
+                key["call"] = ("%s/%s" % (bad["api"], bad["env"])) if bad else "-"
+                key["observed"] = ("res=%s closed=%s sess=%s n=%s desc=%s/%s" % (
+                    bad["res"], bad["closed"], bad["sess"], bad["n"], bad["desc"], bad["wantdesc"])) if bad else info.get("problem", "?")
             key["call_index"] = k - 1 if k else 0
             rep.violation(key, {"info": info, "events": ev, "matched_prefix": k})
     for ev, info in (list(zip(traces, infos))[:2] + list(zip(traces, infos))[-3:]):
